@@ -204,6 +204,8 @@ impl<OT: OtSender<Msg = Block> + Malicious> Receiver<OT> {
         let m_ = m + 128 + SSP;
         let mut r = boolvec_to_u8vec(inputs);
         r.extend((0..(m_ - m) / 8).map(|_| rand::random::<u8>()));
+        #[cfg(feature = "__verif")]
+        crate::verif::probe("fresh:kos_choice_padding", &r[m / 8..]);
         let ts = self.ot.recv_setup(channel, &r, m_, p_to).await?;
         // The coefficients are tossed only now that the matrix has been sent.
         let mut check_rand = toss_check_rng(channel, p_to, false, shared_rand).await?;
